@@ -129,6 +129,9 @@ fn helper(x: i32) -> i32 {
 }
 """ % (cmd, cmd_ra if st.has_cmds else "", get_name, id_name, id_ty, home_ty, extra_param, ret_ty, cmd)
     chan_ty = "String" if a["channel_type"] else "u32"
+    # events are emitted from TWO files (events.rs and cmds/deep/b.rs): their relative order must not depend on line numbers
+    announce = ("\nuse tauri::Emitter;\npub fn announce(app: tauri::AppHandle, done: bool) {\n    app.emit(\"job-announced\", done).ok();\n}\n"
+                if st.has_events else "")
     extra_chan = ", on_log: Channel<String>" if a["channel_added"] else ""
     extra_cmd = ("\n%spub fn extra_cmd(flag: bool) -> bool {\n    flag\n}\n" % cmd) if a["cmd_added"] else ""
     b_rs = """use crate::models::*;
@@ -141,7 +144,9 @@ use tauri::ipc::Channel;
 %spub fn list_statuses() -> Vec<Status> {
     vec![]
 }
-%s""" % (cmd, chan_ty, extra_chan, cmd, extra_cmd)
+
+%spub fn stream_both(on_data: Channel<Progress>, limit: u8, on_done: Channel<u32>) {}
+%s%s""" % (cmd, chan_ty, extra_chan, cmd, cmd, announce, extra_cmd)
     payload = "address: Address" if a["event_payload"] else "user: User"
     pvar = "address" if a["event_payload"] else "user"
     ev_name = "user-updated" if a["event_renamed"] else "user-changed"
@@ -195,6 +200,10 @@ pub fn report(app: tauri::AppHandle, id: u32) {
         addr = [x for x in m_items if "pub struct Address" in x]
         models = "".join(x for x in m_items if "pub struct Address" not in x)
         moved_addr = "use serde::{Deserialize, Serialize};\n\n" + "".join(addr)
+    if "headnoise" in T:
+        # layout noise in ONE file only: shifts its line numbers relative to every other file
+        ev_rs = "// a long header comment\n" + "//\n" * 57 + "\n\n" + ev_rs
+        a_rs = "\n" * 3 + a_rs
     if "noise" in T:
         models = add_noise(models)
         a_rs = add_noise(a_rs)
